@@ -325,6 +325,238 @@ def srvrep_describe(c):
         return c[:200]
 
 
+# ----------------------------------------------------------------------------- c09.projtable / project-mode sessions
+PFUNCS = ["foo", "bar", "baz"]
+PFILES = ["a.lua", "b.lua", "c.lua", "lib/d.lua", "lib/e.lua", "x.lua", "z/y.lua"]
+
+
+def _closure(entry, refs):
+    seen, todo = [], [entry]
+    while todo:
+        f = todo.pop()
+        if f in seen:
+            continue
+        seen.append(f)
+        todo += [t for _, t in refs[f]]
+    return seen
+
+
+def gen_project_session(rng):
+    """a project-mode workspace (luahelper.json with ProjectFiles): entry files, a require DAG, `_G.name = ...` and
+    plain definitions of the same names in several files, members added to a global table from several files.
+    -> (entries, files, struct, queries, srcs) or None when no query can be asked"""
+    others = rng.sample(PFILES, rng.randrange(2, 7))
+    two = rng.random() < 0.3
+    entries = ["main.lua"] + (["m2.lua"] if two else [])
+    files = entries + others
+    refs = {f: [] for f in files}
+    # a DAG: a file refers only to files later in `files` (entries first); entries refer to several files
+    for i, f in enumerate(files):
+        later = [g for g in files[i + 1:] if g not in entries]
+        if not later:
+            continue
+        k = rng.randrange(2, 4) if f in entries else rng.choice([0, 0, 1, 1, 2])
+        for t in rng.sample(later, min(k, len(later))):
+            refs[f].append(("r" if rng.random() < 0.85 else "d", t))
+    if two and rng.random() < 0.6:
+        # equally large projects sharing a file: the tie of findMaxSecondProject
+        shared = rng.choice(others)
+        rest = [o for o in others if o != shared]
+        rng.shuffle(rest)
+        h = len(rest) // 2
+        for f in files:
+            refs[f] = []
+        refs["main.lua"] = [("r", shared)] + [("r", t) for t in rest[:h]]
+        refs["m2.lua"] = [("r", shared)] + [("r", t) for t in rest[h:2 * h]]
+    gdefs = {f: {} for f in files}      # name -> form
+    for name in rng.sample(PFUNCS, rng.randrange(1, len(PFUNCS) + 1)):
+        owners = rng.sample(others, rng.randrange(1, min(4, len(others)) + 1))
+        for o in owners:
+            gdefs[o][name] = rng.choice(["G", "G", "G", "P", "P", "Q"])
+    # a global table defined once, members added by files that do not define it
+    tdef = None
+    adders = []
+    # (single-entry projects only: the model covers one project; with several projects the members land in the SHARED first-pass VarInfo of the table
+    # (finding C09-project-shared-members, fixed by ebeeeaa: guarded by the repetition leg, corpus case `project,sharedmembers`))
+    if rng.random() < 0.5 and len(others) >= 3 and not two:
+        tdef = rng.choice(others)
+        adders = rng.sample([o for o in others if o != tdef], rng.randrange(2, min(4, len(others))))
+    srcs, struct, lineof = {}, {}, {}
+    for f in files:
+        lines, gi, pi, mi = [], [], [], []
+        for kind, t in refs[f]:
+            lines.append('require("%s")' % t[:-4].replace("/", ".") if kind == "r" else 'dofile("%s")' % t)
+        for name, form in gdefs[f].items():
+            ps = ", ".join("p%d" % i for i in range(rng.randrange(0, 4)))
+            ln = len(lines) + 1
+            if form == "G":
+                lines.append("_G.%s = function(%s) end" % (name, ps))
+                gi.append("%s:%d:3" % (hx(name), ln))
+            elif form == "P":
+                lines.append("function %s(%s) end" % (name, ps))
+                pi.append("%s:%d:9" % (hx(name), ln))
+            else:
+                lines.append("%s = function(%s) end" % (name, ps))
+                pi.append("%s:%d:0" % (hx(name), ln))
+        if f == tdef:
+            ln = len(lines) + 1
+            if rng.random() < 0.5:
+                lines.append("_G.T = {}")
+                gi.append("%s:%d:3" % (hx("T"), ln))
+            else:
+                lines.append("T = {}")
+                pi.append("%s:%d:0" % (hx("T"), ln))
+        if f in adders:
+            for m in rng.sample(["x", "y"], rng.randrange(1, 3)):
+                ln = len(lines) + 1
+                lines.append("T.%s = function(%s) end" % (m, ", ".join("q%d" % i for i in range(rng.randrange(0, 3)))))
+                mi.append("%s:%d:2" % (hx("T." + m), ln))
+        srcs[f] = lines
+        struct[f] = (gi, pi, mi)
+    # what can be asked: per entry the closure; a name is answerable from a project file that does not define it when the
+    # project's table has it (a `_G.` definition in a project file, or a plain one in a file some project file refers to)
+    clos = {e: _closure(e, refs) for e in entries}
+    queries = []
+    for qf in files:
+        projs = [e for e in entries if qf in clos[e]]
+        if not projs:
+            continue
+        best = max(len(clos[e]) for e in projs)
+        cand = [e for e in projs if len(clos[e]) == best]
+        tables = []
+        for e in cand:
+            pf = clos[e]
+            referred = {t for g in pf for _, t in refs[g]}
+            names = {n for g in pf for n, form in gdefs[g].items() if form == "G"} | \
+                    {n for g in referred for n, form in gdefs[g].items() if form != "G"}
+            tin = tdef is not None and tdef in pf and (any(x.startswith(hx("T") + ":") for x in struct[tdef][0]) or tdef in referred)
+            mem = set()
+            if tin:
+                for g in pf:
+                    if g in adders:
+                        mem |= {bytes.fromhex(x.split(":")[0]).decode() for x in struct[g][2]}
+            tables.append((names, mem))
+        names = set.intersection(*[t[0] for t in tables])
+        mem = set.intersection(*[t[1] for t in tables])
+        for n in sorted(names):
+            if n in gdefs[qf] or rng.random() < 0.5:
+                continue
+            queries.append(("g", qf, n, None, rng.random() < 0.6))
+        if qf != tdef and qf not in adders:
+            for m in sorted(mem):
+                if rng.random() < 0.5:
+                    queries.append(("m", qf, "T", m.split(".")[1], False))
+    if not queries:
+        return None
+    rng.shuffle(queries)
+    queries = queries[:4]
+    steps, qspec = [], []
+    names_order = ["luahelper.json"] + files
+    for kind, qf, n, m, gform in queries:
+        ln = len(srcs[qf])
+        fi = names_order.index(qf)
+        if kind == "g":
+            srcs[qf].append(("_G.%s(1, 2)" if gform else "%s(1, 2)") % n)
+            steps.append((fi, ln, 3 if gform else 0))
+            qspec.append("g:%d:%s" % (files.index(qf), hx(n)))
+        else:
+            srcs[qf].append("T.%s(1)" % m)
+            steps.append((fi, ln, 2))
+            qspec.append("m:%d:%s" % (files.index(qf), hx("T." + m)))
+    recs = []
+    for f in files:
+        gi, pi, mi = struct[f]
+        rf = ",".join("%s%d" % (k, files.index(t)) for k, t in refs[f])
+        recs.append("/".join([hx(f), ",".join(gi) or "-", ",".join(pi) or "-", rf or "-", ",".join(mi) or "-"]))
+    cfg = '{"ProjectFiles":[%s]}\n' % ",".join('"%s"' % e for e in entries)
+    fl = [("luahelper.json", cfg)] + [(f, "\n".join(srcs[f]) + "\n") for f in files]
+    return (",".join(str(files.index(e)) for e in entries), ";".join(recs), ",".join(qspec), fl, steps)
+
+
+def gen_projtable(rng, tier):
+    """the first-phase _G table of a project through the REAL server (fresh process per run): go-to-definition on
+    names several project files define; the answers over the runs must be the singleton the model computes
+    (project_merge_ws / member_provider / pick_project with fx = true)"""
+    n = {"quick": 160, "thorough": 4000, "search": 60}[tier]
+    nreps = {"quick": 6, "thorough": 8, "search": 6}[tier]
+    out = []
+    while len(out) < n:
+        g = gen_project_session(rng)
+        if g is None:
+            continue
+        entries, recs, qspec, fl, steps = g
+        opened = sorted({fi for fi, _, _ in steps})
+        script = " ".join("F:%s:%s" % (hx(f), hx(c)) for f, c in fl) + " " + " ".join("S:open:%d" % fi for fi in opened) \
+                 + " " + " ".join("S:define:%d:%d:%d" % st for st in steps)
+        out.append("%d %s %s %s %s" % (nreps, entries, recs, qspec, script))
+    return out
+
+
+def projtable_describe(c):
+    try:
+        dec = lambda h: bytes.fromhex(h).decode("latin1")
+        f = c.split(" ")
+        fs = [x.split(":") for x in f[4:] if x.startswith("F:")]
+        return " || ".join(dec(x[1]) + ": " + dec(x[2]).replace("\n", " / ") for x in fs)[:900]
+    except Exception:
+        return c[:200]
+
+
+def gen_srvrep_project(rng, tier):
+    """project-mode sessions for c09.srvrep: the same workspaces, every kind of answer (hover, definition, references,
+    outline, diagnostics) must be the same in every fresh start"""
+    n = {"quick": 40, "thorough": 800, "search": 20}[tier]
+    nreps = {"quick": 6, "thorough": 8, "search": 6}[tier]
+    out = []
+    while len(out) < n:
+        g = gen_project_session(rng)
+        if g is None:
+            continue
+        _, _, _, fl, steps = g
+        opened = sorted({fi for fi, _, _ in steps})
+        st = ["S:open:%d" % fi for fi in opened]
+        for fi, ln, col in steps:
+            st += ["S:define:%d:%d:%d" % (fi, ln, col), "S:hover:%d:%d:%d" % (fi, ln, col), "S:refs:%d:%d:%d" % (fi, ln, col)]
+        st += ["S:docsym:%d" % fi for fi in opened] + ["S:diags"]
+        out.append("%d project %s %s" % (nreps, " ".join("F:%s:%s" % (hx(f), hx(c)) for f, c in fl), " ".join(st)))
+    return out
+
+
+def gen_srvrep_manysyms(rng, tier):
+    """workspace/symbol on a workspace of several files with MORE than 200 collected symbols (globals and members of
+    varying name lengths, a few of which match the query): non-empty queries, each asked several times of the same
+    server and of fresh servers; below 200 matches the answer is all the matches plus the first non-matching names
+    in name order (8de61ad), a function of the workspace - whatever the worker goroutines that score the files
+    concurrently do (seeded/C09-4: one fuzzy Matcher shared by all workers)"""
+    n = {"quick": 3, "thorough": 40, "search": 2}[tier]
+    nreps = {"quick": 5, "thorough": 6, "search": 4}[tier]
+    out = []
+    for _ in range(n):
+        nfiles = rng.randrange(10, 25)
+        tag = rng.choice(["zq", "kx", "qv"])
+        files = []
+        for f in range(nfiles):
+            lines = []
+            for i in range(rng.randrange(30, 70)):
+                w = rng.randrange(1, 28)
+                name = "".join(rng.choice("abcdefghilmnoprstu_") for _ in range(w)) + "_%d_%d" % (f, i)
+                name = "p" + name
+                x = rng.random()
+                if x < 0.08:
+                    lines.append("%sTarget%s_%d_%d = %d" % (tag, "x" * rng.randrange(0, 20), f, i, i))
+                elif x < 0.75:
+                    lines.append("%s = %d" % (name, i))
+                elif x < 0.9:
+                    lines.append("function %s(a, b) end" % name)
+                else:
+                    lines.append("%s = { m%s = 1, %s%s = 2 }" % (name, "e" * rng.randrange(1, 12), tag, "f" * rng.randrange(1, 9)))
+            files.append(("mod_%02d.lua" % f if rng.random() < 0.8 else "lib/mod_%02d.lua" % f, "\n".join(lines) + "\n"))
+        qs = [tag + "Target", tag, tag + "T", "p" + rng.choice("abcde"), tag + "Target"]
+        steps = ["S:open:0"] + ["S:wssym:%s" % hx(q) for q in qs for _ in range(3)]
+        out.append("%d manysyms %s %s" % (nreps, " ".join("F:%s:%s" % (hx(f), hx(c)) for f, c in files), " ".join(steps)))
+    return out
+
+
 LEGS = [
     Leg("c09.merge", gen_merge, shrink=shrink_items, nontrivial=merge_nontrivial, describe=merge_describe),
     Leg("c09.genmaps", lambda rng, tier: gen_merge(rng, tier, 3000), shrink=shrink_items, nontrivial=merge_nontrivial,
@@ -332,7 +564,9 @@ LEGS = [
     Leg("c09.bestmatch", gen_bestmatch, shrink=shrink_bestmatch, describe=bm_describe, per_case_s=0.2,
         nontrivial=lambda c: len(c.split(" ")[2].split(",")) >= 2),
     Leg("c09.project", gen_project, describe=project_describe, per_case_s=20, jobs=6),
-    Leg("c09.srvrep", gen_srvrep, describe=srvrep_describe, per_case_s=20, jobs=6,
+    Leg("c09.srvrep", lambda rng, tier: gen_srvrep(rng, tier) + gen_srvrep_project(rng, tier) + gen_srvrep_manysyms(rng, tier), describe=srvrep_describe,
+        per_case_s=20, jobs=6, nontrivial=lambda c: True),
+    Leg("c09.projtable", gen_projtable, describe=projtable_describe, per_case_s=20, jobs=6,
         nontrivial=lambda c: True),
 ]
 for l in LEGS[1:]:
@@ -341,6 +575,8 @@ for l in LEGS[1:]:
 TRUSTED = vlib.TRUSTED_COMMON + [
     "modelled, tied by correspondence: AnalysisThird.JudgeShouldInsertGlobalInfo / InsertThirdGlobalGMaps / FindThirdGlobalGInfo, the loop of generateAllGlobalMaps (hook VerifC09GenerateAllGlobalMaps runs the real one), calcMatchStrScore / GetBestMatchReferFile",
     "Go's map iteration order, sort.Sort and goroutine completion order are modelled as arbitrary permutations; set-valued observables: the implementation's answers over repetitions (freshly built maps, rotated insertion order) must lie in the model's set of possible answers, which is a singleton for the repaired code (fixes/C09-deterministic-order.diff), so any second answer is a violation",
+    "project mode (luahelper.json with ProjectFiles), modelled: SingleProjectResult.InsertGlobalGMaps / FindGlobalGInfo and the three loops of checkOneProject over second.AllFiles (project_merge_ws, member_provider), findMaxSecondProject (pick_project); tied by leg c09.projtable: go-to-definition of the REAL server (one fresh process per run) on names several project files define = the singleton the model computes; the file set of a project (scanProjectAllFiles) is computed by the driver as the closure of the entry under the generated references; the driver also supplies the columns of the definitions",
+    "not modelled, guarded by the repetition leg c09.srvrep only (singleton demanded): class merge, symbol / references cut, the concurrent scoring of workspace symbols (several files, more than 200 symbols, non-empty queries repeated on the same and on fresh servers), hover / references / diagnostics in project mode; sessions with several project entry files AND members added to a global table by other files (finding C09-project-shared-members, fixed ebeeeaa) are guarded by the repetition leg only",
     "c09.project: whole analyses repeated in one process under GOMAXPROCS 1/2/16 (map seeds are per iteration in Go); the model's prediction is 'every workspace is stable' (tie workspaces, members added to a global table from several files and equally scored module candidates included): the per-file analyses themselves are not modelled here",
 ]
 
